@@ -278,3 +278,47 @@ Definition unsubscribe (k t : nat) (r : registry) : option registry :=
     | l' => Some (set_key k l' r)
     end
   else None.
+
+(* ------------------------------------------------------------------------------------------------------------ *)
+(* Registry with the context each subscription was registered with (notifierSubscriber.ctx)                        *)
+(* ------------------------------------------------------------------------------------------------------------ *)
+
+(* what Publish can see of a subscription's context: none | live | already cancelled *)
+Inductive sctx := CtxNone | CtxLive | CtxCancelled.
+
+Definition ctxtab := list (nat * nat * sctx).                          (* (key, target) -> registered context *)
+Definition cregistry := (registry * ctxtab)%type.
+
+Fixpoint ctx_of (k t : nat) (tab : ctxtab) : sctx :=
+  match tab with
+  | [] => CtxNone
+  | (k', t', c) :: tab' => if (k' =? k) && (t' =? t) then c else ctx_of k t tab'
+  end.
+
+Definition drop_ctx (k t : nat) (tab : ctxtab) : ctxtab :=
+  filter (fun e => negb ((fst (fst e) =? k) && (snd (fst e) =? t))) tab.
+
+(* SubscribeContext(ctx, key, target): None = the duplicate panic, NOTHING of the existing subscription changes *)
+Definition subscribe_ctx (c : sctx) (k t : nat) (cr : cregistry) : option cregistry :=
+  match subscribe k t (fst cr) with
+  | Some r' => Some (r', (k, t, c) :: drop_ctx k t (snd cr))
+  | None => None
+  end.
+
+Definition unsubscribe_ctx (k t : nat) (cr : cregistry) : option cregistry :=
+  match unsubscribe k t (fst cr) with
+  | Some r' => Some (r', drop_ctx k t (snd cr))
+  | None => None
+  end.
+
+(* the subscriptions a Publish of a value every target accepts finds under key k *)
+Definition subs_of (k : nat) (cr : cregistry) : list sub :=
+  map (fun t => match ctx_of k t (snd cr) with
+                | CtxNone => {| sid := t; has_ctx := false; cancelled0 := false; compat := true |}
+                | CtxLive => {| sid := t; has_ctx := true; cancelled0 := false; compat := true |}
+                | CtxCancelled => {| sid := t; has_ctx := true; cancelled0 := true; compat := true |}
+                end) (lookup k (fst cr)).
+
+(* Publish to targets that are all ready (buffered, drained): who receives *)
+Definition publish_ready (k : nat) (cr : cregistry) : list nat * bool :=
+  run_publish false (subs_of k cr) (map (fun t => EvReady t) (lookup k (fst cr))).
